@@ -20,7 +20,7 @@ PID = "C08"
 LEVEL = "fault_enumeration"
 BUDGET = {"quick": 8000, "thorough": 120000}
 RULE = (
-    "each run samples a block program: <=6 ops over {apply tool T to the current scoped handle (16 tools of C01, "
+    "each run samples a block program: <=6 ops over {apply tool T to the current scoped handle (18 tools of C01 incl. groupby and merge, "
     "further sources real), take j, then close / exhaust / abandon(+gc); pull the handle directly; enter a nested "
     "scoped_iter(handle) (depth <=3); leave the innermost scope} on an underlying iterator of 0..8 items (async "
     "generator, class-based with/without aclose, async iterable, sync iterable, a proxy forwarding aclose dynamically), "
@@ -42,7 +42,7 @@ PROBES = ("source_is_a_borrowed_handle", "cancel_at_block_level_before_first_pul
           "inner_scope_left_then_outer_used", "underlying_without_aclose", "tool_closed_midway")
 
 TOOL_NAMES = ("zip", "map", "filter", "filterfalse", "enumerate", "accumulate", "batched", "chain", "compress",
-              "cycle", "dropwhile", "takewhile", "islice", "pairwise", "zip_longest", "tee")
+              "cycle", "dropwhile", "takewhile", "islice", "pairwise", "zip_longest", "tee", "groupby", "merge")
 
 
 class BlockError(Exception):
@@ -115,6 +115,14 @@ def prepare(ch):
                 spec.srcs.pop()
             if spec.p.get("alias"):
                 spec.p["alias"] = None
+            if name == "merge":
+                # merge promises the stdlib's order for sorted inputs only: plain ascending order everywhere, and the
+                # underlying iterator of the scope is sorted too
+                spec.fns = [None]
+                spec.p["reverse"] = False
+                for p_ in spec.srcs:
+                    p_.items = sorted([i for i in p_.items if type(i).__name__ == "Item"], key=lambda i: i.key)
+                prep.sort_underlying = True
             # the handle takes the place of one of the tool's iterable arguments (not always the first)
             ops.append(("tool", spec, ch.draw(5), ch.draw(3), ch.draw(len(spec.srcs))))
         elif kind == 1:
@@ -131,6 +139,8 @@ def prepare(ch):
         else:
             ops.append(("pull", 1))
     prep.ops = ops
+    if getattr(prep, "sort_underlying", False):
+        prep.src.items.sort(key=lambda i: i.key)
     # dry run (fault free) to learn the number of suspension points of the block
     st = Streams(Chooser(replay=[]), Chooser(replay=[0]), Chooser(replay=[]))
     sim, res = run_block(prep, st, 0, 0, interrupts=0)
